@@ -63,6 +63,9 @@ TNext ==
               /\ UNCHANGED <<vars, spawned, yielded, fh, coords, caseNo>>
          [] r.ev = "EndCase" ->
               /\ IF r.hang = 1 THEN Fail("hang", r)
+                 \* the whole stream was given up because a worker failed (only the failing generator callbacks of the drivers do
+                 \* that): C14 does not say whether a failure is swallowed or propagated -- reported, not judged
+                 ELSE IF r.aborted = 1 THEN Fail("aborted_on_worker_failure", r)
                  ELSE IF Keep \ yielded # {} THEN Fail("lost", [r EXCEPT !.ev = "EndCase"] @@ [missing |-> Keep \ yielded])
                  ELSE IF ~InvPaired \/ ~InvNoDup \/ ~InvOnlyKept THEN Fail("invariant", r)
                  ELSE TRUE
